@@ -1,5 +1,5 @@
 """C10 — mpmc: no lost wake-up for receivers or senders (necessary rules)."""
-from rl import (entry_methods, loc_endswith, path_cond, trace_summary, where, const_of, fmt_val, fmt_loc, fields_of)
+from rl import (method_role, entry_methods, loc_endswith, path_cond, trace_summary, where, const_of, fmt_val, fmt_loc, fields_of)
 from common import (w3_waker_use, w4_pending_stores_waker, w4_helper, contains, own_node_roots, poll_variant)
 from engine import NONE
 from lib import CheckerError
@@ -82,7 +82,7 @@ def run(C, R):
                         continue
                     sloc = root + ('data', 'state')
                     k0 = path.facts.get(('discr', ('init', sloc)))
-                    if k0 != ('eq', 'Notified') or 'remove' not in (m.get('name') or ''):
+                    if k0 != ('eq', 'Notified') or method_role(F, m)[1]:   # removal functions take no Context
                         continue
                     n2 += 1
                     ok, why = receiver_handover(E, path, -1)
